@@ -5,12 +5,12 @@ From Coq Require Import Arith.
 From PB Require Import Common Tables FdlTables Telegram Phy TokenRing Params Fdl FdlOracle FdlProofs FdlStepProofs.
 From PB Require Import C05Proofs C01Proofs C11Proofs C15Proofs C13Proofs C12Proofs.
 From PB Require Import FdlOracleSound1 FdlOracleSound2 FdlOracleSound3 FdlOracleSound4 FdlOracleSound5 FdlOracleSound6
-                       FdlOracleSound7 FdlOracleSound8 FdlOracleSound9.
+                       FdlOracleSound7 FdlOracleSound8 FdlOracleSound9 FdlOracleSound10.
 
 (* rules whose soundness is NOT proved here (R05_panic: see c05_oracle_sound, a separate induction) *)
 Definition open_rules : list rule :=
   [R05_panic;
-   R11_accept_without_token; R11_accept_from_stranger; R11_supervision_never_ends; R11_offer_changes_ring_view;
+   R11_supervision_never_ends;
    R12_reply_without_request; R12_reply_untruthful; R12_reply_from_wrong_state;
    R12_sweep_bound; R12_post_claim_scan_incomplete; R12_gap_wait_never_ends;
    R15_no_reply_no_timeout].
@@ -27,16 +27,8 @@ Hypothesis Hbv : builder_valid p.
 Hypothesis Hdata : app_sends_data A ops.
 
 Definition JA (n : nat) (f : fdl) (apps : list A) (buf : bytes) (tl : Z) (m : mon) (g : mon2) : Prop :=
-  J7 A p n f apps buf tl m g /\ TI f tl m /\ UB f tl g /\ PS f m.
+  J7 A p n f apps buf tl m g /\ TI f tl m /\ UB f tl g /\ PS f m /\ CD f m.
 
-Lemma x_e11a_open m s :
-  (if state_kind_eqb (x_k0 m) KListenToken
-   then check (kind_in (x_k1 s) [KListenToken; KActiveIdle; KClaimToken; KOffline]) R11_accept_while_listening
-   else []) = [] ->
-  onlyr may_fire (x_e11a p m s).
-Proof. intros H. unfold x_e11a. rewrite H. cbn [app]. solve_onlyr in_leaf. Qed.
-Lemma x_e11c_open m s : onlyr may_fire (x_e11c p m s).
-Proof. unfold x_e11c. cbv zeta. solve_onlyr in_leaf. Qed.
 Lemma x_e12b_open m s : onlyr may_fire (x_e12b p m s).
 Proof. unfold x_e12b. cbv zeta. solve_onlyr in_leaf. Qed.
 Lemma y_e_sweep_open m g s : onlyr may_fire (y_e_sweep p m g s).
@@ -53,7 +45,7 @@ Proof.
   intros Hok.
   apply (generic_sound_transcript A ops p (length apps) may_fire (JA (length apps)) (fun _ => True)); try assumption; try reflexivity.
   - in_leaf.
-  - intros a f apps0 buf tl m g f' ((((HB & c & HV) & HG) & HX) & HT & HU & HP) E _. split; [split; [split|]|split; [|split]].
+  - intros a f apps0 buf tl m g f' ((((HB & c & HV) & HG) & HX) & HT & HU & HP & HC) E _. split; [split; [split|]|split; [|split; [|split]]].
     + split; [eapply base_api; eassumption|]. eapply vi_api; eassumption.
     + intros Hor. destruct a; cbn [mon_after_api fst]; try reflexivity.
       * unfold api_result, set_online, set_state in E. cbn in E. injection E as <-. exact (HG Hor).
@@ -62,7 +54,8 @@ Proof.
     + eapply ti_api; eassumption.
     + eapply ub_api; eassumption.
     + eapply ps_api; eassumption.
-  - intros f apps0 buf tl m g now busy nb f' o apps' calls (((HJ & HG) & HX) & HT & HU & HP) Hlt Hnow Hnb E _.
+    + eapply cd_api; eassumption.
+  - intros f apps0 buf tl m g now busy nb f' o apps' calls (((HJ & HG) & HX) & HT & HU & HP & HC) Hlt Hnow Hnb E _.
     pose proof HJ as (HB & c & HV). assert (Hle : tl <= now) by lia.
     destruct (J5_poll A ops p (length apps) Happs Hbv Hdata _ _ _ _ _ _ _ _ _ _ _ _ _ HJ Hlt Hnow Hnb E)
       as ((c' & Hf & H15 & H13 & Hrr & Hend & HV') & HB').
@@ -71,31 +64,32 @@ Proof.
     pose proof (c06_ok A ops p (length apps) Hbv _ _ _ _ _ _ _ _ _ _ _ _ HB HT Hle Hnow Hnb E) as H06.
     pose proof (backoff_ok A ops p (length apps) _ _ _ _ _ _ _ _ _ _ _ _ _ _ HB HV HX HU Hlt E) as Hbo.
     pose proof (e11b_ok A ops p (length apps) Hbv _ _ _ _ _ _ _ _ _ _ _ _ HB HP E H01) as H11b.
-    pose proof (listen_ok A ops p (length apps) _ _ _ _ _ _ _ _ _ _ _ _ HB E) as H11l.
+    pose proof (e11a_ok A ops p (length apps) _ _ _ _ _ _ _ _ _ _ _ _ HB HC E) as H11a.
+    pose proof (e11c_ok A ops p (length apps) _ _ _ _ _ _ _ _ _ _ _ _ HB HC E) as H11c.
     split; [|split].
     + rewrite mon_poll_eq. cbn [snd].
       assert (H12a : x_e12a p m (poll_event now busy (buf ++ nb) f' o calls) = []) by (eapply e12a_ok; eassumption).
-      rewrite H01, H06, H11b, H12a, Hf, H15. cbn [app]. rewrite app_nil_r.
-      apply onlyr_app; [apply x_e11a_open; exact H11l|].
-      apply onlyr_app; [apply x_e11c_open|].
+      rewrite H01, H06, H11a, H11c, H11b, H12a, Hf, H15. cbn [app]. rewrite app_nil_r.
       apply x_e12b_open.
     + rewrite mon_poll2_eq. cbn [snd]. rewrite Hfound, Htok, H13, Hrr, Hend, Hbo. cbn [app]. rewrite app_nil_r.
       apply onlyr_app; [apply y_e_sweep_open|].
       apply onlyr_app; [apply y_e_scan_open|].
       apply y_e_live_open.
-    + split; [split; [split|]|split; [|split]].
+    + split; [split; [split|]|split; [|split; [|split]]].
       * split; [exact HB'|exists c'; rewrite fst_mon_poll, mon_poll2_eq; exact HV'].
       * rewrite fst_mon_poll. eapply gp_poll; eassumption.
       * rewrite mon_poll2_eq. cbn [fst]. exact HX'.
       * eapply ti_poll; eassumption.
       * rewrite mon_poll2_eq. cbn [fst]. eapply ub_poll; eassumption.
       * rewrite fst_mon_poll. eapply ps_poll; eassumption.
-  - intros f0 apps0 E Hn _. split; [split; [split; [apply J5_init; assumption|intros _; reflexivity]|]|split; [|split]].
+      * rewrite fst_mon_poll. eapply cd_poll; eassumption.
+  - intros f0 apps0 E Hn _. split; [split; [split; [apply J5_init; assumption|intros _; reflexivity]|]|split; [|split; [|split]]].
     + split; [|intros a C; discriminate C].
       intros a Haw. exfalso. destruct (fdl_new_spec _ _ E) as ((S1 & _) & _). rewrite S1 in Haw. destruct Haw as [C|C]; discriminate C.
     + destruct (J1_init A p Hbv _ _ _ E Hn) as (_ & HT). exact HT.
     + intros l El. destruct (fdl_new_fields _ _ E) as (_ & _ & L1 & _). rewrite L1 in El. discriminate El.
     + destruct (fdl_new_fields _ _ E) as (S1 & _). split; intros; rewrite S1 in *; discriminate.
+    + intros sr nps cc Es. destruct (fdl_new_fields _ _ E) as (S1 & _). rewrite S1 in Es. discriminate Es.
   - apply transcript_ok_true.
 Qed.
 
@@ -111,10 +105,10 @@ Qed.
 Corollary c11_open (apps : list A) (ins : list minput) :
   ins_ok 0 ins ->
   forall k r, In (k, r) (monitor p (length apps) (model_transcript A ops p apps ins)) -> rule_prop r = PC11 ->
-  In r [R11_accept_without_token; R11_accept_from_stranger; R11_supervision_never_ends; R11_offer_changes_ring_view].
+  r = R11_supervision_never_ends.
 Proof.
   intros Hok k r Hin Hp. pose proof (fdl_oracle_sound _ _ Hok _ _ Hin) as H. unfold open_rules in H. cbn in H.
-  repeat (destruct H as [<-|H]; [first [discriminate Hp | cbn; repeat (first [left; reflexivity | right])]|]). contradiction.
+  repeat (destruct H as [<-|H]; [first [discriminate Hp | reflexivity]|]). contradiction.
 Qed.
 
 Corollary c12_open (apps : list A) (ins : list minput) :
